@@ -355,6 +355,13 @@ class TreeLikelihoodModel(CallableModel):
 
         return log_p
 
+    def _underflow_risk(self) -> bool:
+        """Site likelihoods close to the smallest normal number have already lost
+        precision (subnormal range) long before their logarithm becomes -inf."""
+        root = self.partials[self.tree_model.postorder[-1][0]]
+        tiny = torch.finfo(root.dtype).tiny * 1.0e16
+        return bool(torch.any(root.amax(dim=(-3, -2)) < tiny))
+
     def calculate_with_tip_partials(self, mats, frequencies, probs):
         if self.rescale:
             log_p = calculate_treelikelihood_discrete_rescaled(
@@ -375,7 +382,7 @@ class TreeLikelihoodModel(CallableModel):
                 probs,
             )
 
-            if torch.any(torch.isinf(log_p)):
+            if torch.any(torch.isinf(log_p)) or self._underflow_risk():
                 self.rescale = True
                 log_p = calculate_treelikelihood_discrete_safe(
                     self.partials,
@@ -408,7 +415,7 @@ class TreeLikelihoodModel(CallableModel):
                 probs,
             )
 
-            if torch.any(torch.isinf(log_p)):
+            if torch.any(torch.isinf(log_p)) or self._underflow_risk():
                 self.rescale = True
                 log_p = calculate_treelikelihood_tip_states_discrete_rescaled(
                     self.partials,
